@@ -425,6 +425,9 @@ class ArgumentParser:
                     flag_name = option["flags"][0]
                     # Copy the default, because custom actions may extend it
                     # and the compiler definition is shared between commands.
+                    # The schema also allows a single string.
+                    if isinstance(default_value, str):
+                        default_value = [default_value]
                     if isinstance(default_value, list):
                         default_value = default_value.copy()
                     namespace._passes[flag_name] = default_value
